@@ -114,6 +114,9 @@ def is_utf8(b):
 
 BYTE_FAMS = {'u': ['u', 'tu'], 'w': ['w', 'tw']}
 UTF8_FAMS = {'u': ['u8', 't8u'], 'w': ['w8', 't8w']}
+# every API family answered by the Unix / Windows byte model: borrowed, owned (b..), runtime-typed (t..), UTF-8 (..8..), platform (p..)
+ALL_BYTE = {'u': ['tu', 'bu', 'tbu', 'pu'], 'w': ['tw', 'bw', 'tbw']}
+ALL_UTF8 = {'u': ['u8', 't8u', 'b8u', 'tb8u', 'p8'], 'w': ['w8', 't8w', 'b8w', 'tb8w']}
 
 
 def fams_for(enc, p_list, rng, all_fams=False):
@@ -125,9 +128,9 @@ def fams_for(enc, p_list, rng, all_fams=False):
     else:
         r = rng.random()
         if r < 0.15:
-            fams.append(BYTE_FAMS[enc][1])
+            fams.append(rng.choice(ALL_BYTE[enc]))
         elif r < 0.40 and ok8:
-            fams.append(rng.choice(UTF8_FAMS[enc]))
+            fams.append(rng.choice(ALL_UTF8[enc]))
     return fams
 
 
@@ -455,11 +458,14 @@ def refamily(cases, rng, want):
         if want == 'utf8':
             if not all(is_utf8(bytes.fromhex(x)) for x in blobs):
                 continue
-            choices = UTF8_FAMS[fam] if name not in ('c02', 'c16') else [fam + '8']
+            choices = ALL_UTF8[fam] if name not in ('c02', 'c16') else [fam + '8']
             if name == 'c16':
-                choices = [fam + '8', 't8' + fam]
+                choices = [fam + '8', 't8' + fam, 'tb8' + fam]
         else:
-            choices = [BYTE_FAMS[fam][1]] + ([UTF8_FAMS[fam][1]] if all(is_utf8(bytes.fromhex(x)) for x in blobs) else [])
+            ok8 = all(is_utf8(bytes.fromhex(x)) for x in blobs)
+            choices = ['t' + fam, 'tb' + fam] + (['t8' + fam, 'tb8' + fam] if ok8 else [])
+            if name != 'c16':
+                choices += (['pu'] + (['p8'] if ok8 else [])) if fam == 'u' else []
         if name == 'c17':
             choices = [c for c in choices if not c.startswith('t')]
             if not choices:
@@ -483,7 +489,7 @@ def mixed_cases(tier, rng, scale=0.25):
                    ('C10', gen_pairs('c10', scale=scale)), ('C11', gen_unary('c11', scale=scale)),
                    ('C12', gen_pairs('c12', second='names', scale=scale)),
                    ('C13', gen_pairs('c13', second='names', scale=scale, extra_second=EXTS)),
-                   ('C16', gen_unary('c16', scale=scale)), ('C17', gen_unary('c17', scale=scale)),
+                   ('C16', gen_unary('c16', scale=scale, fam_filter=lambda f: f in ('u', 'w'))), ('C17', gen_unary('c17', scale=scale)),
                    ('C02', gen_unary('c02', encs=('w',), scale=scale, fam_filter=lambda f: f == 'w'))]:
         cs, _ = g(small, rng)
         cs = [c for c in cs if c.split('\t')[0].split('.')[1] in ('u', 'w')]
@@ -648,7 +654,7 @@ PROPS = {
     'C13': P(gen_c13, 'set_extension (repaired by a fix: commit): model tied to the code and to std::path::PathBuf::set_extension.', NOTE_CORR),
     'C14': P(gen_c14, 'UTF-8 families answered by the byte model on valid UTF-8 inputs; every &str re-validated in the harness; conversions succeed exactly on valid UTF-8 (utf8_valid defined in Coq).', NOTE_CORR),
     'C15': P(gen_c15, 'Runtime-typed and platform families answered by the concrete model; variant preserved; derive rule modelled.', NOTE_CORR),
-    'C16': P(gen_unary('c16'), 'Encoding conversion: model of with_encoding(_checked) tied to the code in both directions and for UTF-8/typed forms.', NOTE_CORR),
+    'C16': P(gen_unary('c16', fam_filter=lambda f: f in ('u', 'w', 'u8', 'w8', 'tu', 'tw', 't8u', 't8w', 'tbu', 'tbw', 'tb8u', 'tb8w')), 'Encoding conversion: model of with_encoding(_checked) tied to the code in both directions and for UTF-8/typed forms.', NOTE_CORR),
     'C17': P(gen_c17, 'Validity predicate vs the forbidden-byte tables (regenerated from the source), all 256 byte values in each position.', NOTE_CORR),
     'C18': P(gen_c18, 'Totality: fuel-sufficiency / strict-progress lemmas of the model loops; every operation run under catch_unwind and a watchdog on long inputs.', NOTE_CORR, impl_only_gen=gen_c18_impl_only, debug_build=True, oracle='nopanic'),
     'C19': P(gen_c19, 'Lossless construction/conversion: to_str / lossy / Display against utf8_valid and lossy defined in Coq; every conversion chain checked in the harness.', NOTE_CORR),
